@@ -212,6 +212,8 @@ def faults(tier, seed, runner, lines):
                 viol.append(('fault', ['# FAILSTATE ' + l], 'after an injected allocation failure the object is in a state the exception-aware operational model cannot be left in (the order of mutations and throwing operations changed):\n%s\n%s' % (l[:1500], a[:600]), False))
     m = re.search(r'SUMMARY operations=(\d+) failure_points=(\d+) violations=(\d+)', p.stdout)
     if m: cov.update({'operations': int(m.group(1)), 'failure_points': int(m.group(2)), 'violations': int(m.group(3))})
+    mx = re.search(r'EXTRA failure_points=(\d+) violations=(\d+)', p.stdout)
+    if mx: cov.update({'parse_lockstep_and_sort_after_failed_copy_points': int(mx.group(1))})
     if p.returncode != 0 and not viol:
         viol.append(('fault', ['# fault harness rc=%d' % p.returncode], 'sanitizer report (leak / memory error) during fault enumeration:\n' + p.stderr[-3000:], True))
     if not m and not viol:
